@@ -246,6 +246,70 @@ pub fn c03(ctx: &mut Ctx) {
                     ctx.oracle_ok();
                 }
             }
+            // the same statement from the documented pipeline, not from what the crate handed to
+            // its own algorithm: fragments = (empty sentinel if break_words and a non-empty
+            // initial indent) ++ break_words(split_words(find_words(paragraph))); the returned
+            // lines, read as groups of these fragments, must have minimum cost
+            if let (Some(ls), false) = (&lines, t.contains('\n')) {
+                if !(t.len() < o.width && o.ii.is_empty()) {
+                    let frs = quiet(|| {
+                        let sp = crate::opt::splitter_of(o.splitter);
+                        let sub_w = o.width.saturating_sub(textwrap::core::display_width(&o.si));
+                        let words: Vec<_> = crate::opt::sep_of(o.sep).find_words(&t).collect();
+                        let split: Vec<_> = textwrap::word_splitters::split_words(words, &sp).collect();
+                        let mut v: Vec<(String, usize, String, usize)> = Vec::new();
+                        if o.bw && !o.ii.is_empty() {
+                            v.push((String::new(), 0, String::new(), 0));
+                        }
+                        let frs = if o.bw { textwrap::core::break_words(split, sub_w) } else { split };
+                        for f in frs {
+                            v.push((f.word.to_string(), f.whitespace.len(), f.penalty.to_string(), textwrap::core::display_width(f.word)));
+                        }
+                        v
+                    });
+                    if let Some(frs) = frs {
+                        // read the lines as groups of fragments
+                        let mut lens: Vec<usize> = Vec::new();
+                        let mut i = 0usize;
+                        let mut ok = true;
+                        for (k, l) in ls.iter().enumerate() {
+                            let indent: &str = if k == 0 { &o.ii } else { &o.si };
+                            let Some(content) = l.s.strip_prefix(indent) else { ok = false; break };
+                            let mut acc = String::new();
+                            let mut j = i;
+                            let mut found = None;
+                            while j < frs.len() {
+                                let cand = format!("{}{}{}", acc, frs[j].0, frs[j].2);
+                                if cand == content {
+                                    found = Some(j);
+                                    break;
+                                }
+                                acc.push_str(&frs[j].0);
+                                acc.push_str(&" ".repeat(frs[j].1));
+                                j += 1;
+                            }
+                            match found {
+                                Some(j) => { lens.push(j + 1 - i); i = j + 1; }
+                                None => { ok = false; break; }
+                            }
+                        }
+                        if ok && i == frs.len() && !frs.is_empty() {
+                            let fi: Vec<(I, I, I)> = frs.iter().map(|f| (f.3 as I, f.1 as I, f.2.len() as I)).collect();
+                            let a = o.width.saturating_sub(textwrap::core::display_width(&o.ii)) as I;
+                            let b = o.width.saturating_sub(textwrap::core::display_width(&o.si)) as I;
+                            let li = vec![a, b];
+                            let c = arrangement_cost(&fi, &li, pi, &lens);
+                            let m = min_cost(&fi, &li, pi);
+                            ctx.count("text_level_cost_checked");
+                            if c != m {
+                                ctx.fail("wrap with optimal-fit gives each paragraph a minimum-cost arrangement", format!("wrap({}, {}) = {:?}: cost {} over the documented fragments, minimum is {}", show(&t), o.show(), ls.iter().map(|l| l.s.clone()).collect::<Vec<_>>(), c, m), None);
+                            } else {
+                                ctx.oracle_ok();
+                            }
+                        }
+                    }
+                }
+            }
             if let Some(ls) = &lines {
                 let slow_paras = recs.len();
                 let fast_paras = t.split('\n').count() - slow_paras;
